@@ -1,9 +1,15 @@
+import CharsetProof.Lemmas.Ranking
 import CharsetProof.Lemmas.SortPerm
 import CharsetProof.Lemmas.SortWinner
 import CharsetProof.Props.C08
 open Charset
 #print axioms C08_lt_iff_spec
 #print axioms C08_get_best
+#print axioms C08_winner_first
+#print axioms C08_loser_last
+#print axioms sortMatches_winner_first
+#print axioms sortMatches_loser_last
+#print axioms winningKey_of_winner
 #print axioms C08_winner_first_small
 #print axioms C08_loser_last_small
 #print axioms C08_append_resorts
